@@ -165,7 +165,7 @@ def check(ctx):
         ctx.ob("R09.3", rp.func, None, rp.ret is want, f"{m} delegates to predictors_[best_idx_].{m}(X)", construct=f"{m} delegation")
     ctx.guard(_generator, ctx)
     ctx.guard(basis, ctx)
-
+    ctx.guard(_shared_c09, ctx)
 
 def _generator(ctx):
     A = Analysis(ctx, no_inline=[GG + ".build_integer_grid"], max_depth=2)
@@ -269,3 +269,14 @@ def basis(ctx):
         k = st2[0].data["key"]
         ok = k.op == "tuple" and k.args[0][0] is lev.data["elem"] and A.eq(lev.data["iter"], A.at(lev, "self.tags[_GROUP_ID].unique()"))
     ctx.ob("R09.6", r2.func, st2[0].node if st2 else None, ok, "one unit entry (group, i) per group column", construct="ConditionalLossMoment basis")
+
+
+def _shared_c09(ctx):
+    """Life-cycle (history independence, pure prediction) and label-position clauses of the estimator(s) this property
+    is about, shared with C19 R19.3/R19.4 and C12 R12.1 and reported under this property's rule ids."""
+    from .c12 import label_sinks
+    from .c19 import lifecycle_of
+    ctx.rule("R09.7", "fit does not depend on state left by an earlier fit and prediction writes no state (shared with C19 R19.3 / R19.4)")
+    lifecycle_of(ctx, [GS], {"R19.3": "R09.7", "R19.4": "R09.7"})
+    ctx.rule("R09.8", "no caller-labelled pandas value reaches a label-aligning operation on the paths of this property (shared with C12 R12.1)")
+    label_sinks(ctx, "R09.8", [(GS + ".fit", GS)])
